@@ -438,13 +438,16 @@ def _slice_key(b, p):
     return b.pname({"l": rp["l"], "p": pr}, 3)
 
 
-def slice_matches(b, site_bb):
+def slice_matches(b, site_bb, via=None):
     """byte strings a slice-typed value is known to equal at site_bb, from lowered slice patterns (a test of the length
-    followed by per-index switches) and from `==`/has_type style calls: {description: bytes}."""
+    followed by per-index switches) and from `==`/has_type style calls: {description: bytes}.
+    With via=p the facts are those of entering site_bb through its predecessor p (the edge p->site_bb plus whatever
+    dominates p) — used for arms of or-patterns, which have several predecessors."""
     lens = {}
     elems = {}
     out = {}
-    for g, s in taken_edges(b, site_bb):
+    edges = taken_edges(b, site_bb) if via is None else taken_edges(b, via) + ([(via, site_bb)] if b.term(via)["k"] == "switch" else [])
+    for g, s in edges:
         t = b.term(g)
         d = t["d"]
         p = op_place(d)
